@@ -259,6 +259,10 @@ func (g *TG) Struct(depth int) reflect.Type {
 		if g.R.IntN(6) == 0 {
 			idx = g.R.IntN(5000)
 		}
+		if g.R.IntN(40) == 0 {
+			// large indexes (bounded by 100000: known finding D29), around 2^16 and at the bound
+			idx = []int{65535, 65536, 65537, 70000, 99999, 100000, 32767, 32768, 16383, 16384}[g.R.IntN(10)]
+		}
 		if wide {
 			idx = wideBase + wideIdx[i]
 		} else if len(used) > 0 && g.R.IntN(8) == 0 {
